@@ -336,7 +336,11 @@ class DiagnosticsRenderer:
         if leading_whitespace > self.MAX_LEADING_WHITESPACE:
             remove = leading_whitespace - self.OPTIMAL_LEADING_WHITESPACE
             all_lines = [line[remove:] for line in all_lines]
-            span = span.shift_left(remove)
+            # An endpoint inside the removed whitespace moves to the new line start
+            span = Span(
+                span.start.shift_left(min(remove, span.start.column)),
+                span.end.shift_left(min(remove, span.end.column)),
+            )
 
         # Render prefix lines
         for i, line in enumerate(all_lines[:prefix_lines]):
